@@ -38,7 +38,11 @@ struct Interpose {
     std::atomic<bool> trackOwnership{false};
     std::vector<size_t> defaultRecvCaps; bool defaultRecvRepeat = false;   // applied to every descriptor returned by accept4
     std::atomic<bool> capAccepted{false};
+    // delay injected on the ACCEPTOR thread right after it has signalled a worker's queue (an eventfd write): the worker then handles the
+    // new peer - and whatever its first bytes trigger - before the acceptor has finished its own bookkeeping for that connection
+    std::atomic<int> acceptorDelayMs{0}; std::atomic<long> acceptorDelays{0};
 };
+inline thread_local bool tl_is_acceptor = false;
 inline Interpose& ip() { static Interpose* p = new Interpose(); return *p; }
 
 // The executable's own definitions of send/recv/... take precedence over the interceptors of the (shared) AddressSanitizer
@@ -127,8 +131,16 @@ ssize_t recv(int fd, void* buf, size_t len, int flags) {
     }
     return real(fd, buf, cap, flags);
 }
+ssize_t write(int fd, const void* buf, size_t len) {
+    typedef ssize_t (*write_fn)(int, const void*, size_t);
+    static write_fn real = (write_fn)dlsym(RTLD_NEXT, "write");
+    ssize_t r = real(fd, buf, len);
+    if (len == 8 && lv::tl_is_acceptor) { int d = lv::ip().acceptorDelayMs.load(std::memory_order_relaxed); if (d > 0) { lv::ip().acceptorDelays++; int e = errno; usleep((useconds_t)d * 1000); errno = e; } }
+    return r;
+}
 int accept4(int fd, struct sockaddr* a, socklen_t* l, int flags) {
     static accept4_fn real = (accept4_fn)dlsym(RTLD_NEXT, "accept4");
+    lv::tl_is_acceptor = true;
     int r = real(fd, a, l, flags);
     lv::Interpose& I = lv::ip();
     if (r >= 0 && I.trackOwnership.load(std::memory_order_relaxed)) { std::lock_guard<std::mutex> g(I.m); I.owned.insert(r); I.accepts++; }
